@@ -20,34 +20,26 @@ Record xwcase := {
   xw_out : outcome
 }.
 
-Definition check_res_list (ordered : bool) (r : res (list value)) (o : outcome) : bool :=
-  match r, o with
-  | Ok vs, Ret (VList got) => vlist_eqb ordered vs got
-  | Panic, Panicked => true
-  | _, _ => false
+Definition check_list (ordered : bool) (vs : list value) (o : outcome) : bool :=
+  match o with
+  | Ret (VList got) => vlist_eqb ordered vs got
+  | _ => false                                  (* no walker of the model can panic or fail *)
   end.
 
 Definition check_xw (c : xwcase) : bool :=
   let m := xw_m c in
+  xw_unchanged c &&
   match xw_op c, xw_out c with
-  | _, Panicked =>
-      match xw_op c with
-      | XwFrom path ga => check_res_list (xw_ordered c) (xw_values_from m path ga) Panicked
-      | XwAt path ga => check_res_list (xw_ordered c) (xw_values_at m path ga) Panicked
-      | _ => false
-      end
-  | XwPaths key, Ret (VList r) =>
-      xw_unchanged c && perm_eqb veqb (vstrs (xw_paths_for_key m key)) r
+  | XwPaths key, Ret (VList r) => perm_eqb veqb (vstrs (xw_paths_for_key m key)) r
   | XwShortest key, Ret (VStr r) =>
-      xw_unchanged c &&
       let ps := xw_paths_for_key m key in
       match ps with
       | [] => str_eqb r []
       | _ => existsb (str_eqb r) ps && forallb (fun p => path_len r <=? path_len p) ps
       end
-  | XwVfk key, Ret (VList r) => xw_unchanged c && vlist_eqb (xw_ordered c) (xw_values_for_key m key) r
-  | XwFrom path ga, o => xw_unchanged c && check_res_list (xw_ordered c) (xw_values_from m path ga) o
-  | XwAt path ga, o => xw_unchanged c && check_res_list (xw_ordered c) (xw_values_at m path ga) o
+  | XwVfk key, o => check_list (xw_ordered c) (xw_values_for_key m key) o
+  | XwFrom path ga, o => check_list (xw_ordered c) (xw_values_from m path ga) o
+  | XwAt path ga, o => check_list (xw_ordered c) (xw_values_at m path ga) o
   | _, _ => false
   end.
 
